@@ -1,6 +1,7 @@
 package main
 
 import (
+	"strconv"
 	"strings"
 	"verifharness/runner"
 
@@ -20,7 +21,7 @@ func init() {
 		if err != nil {
 			return nil, err
 		}
-		return []string{strings.Join(v, ",")}, nil
+		return []string{strconv.Itoa(len(v)), strings.Join(v, ",")}, nil
 	})
 	// C12
 	runner.Register("rotate", func(a []string) ([]string, error) {
